@@ -309,3 +309,46 @@ def gen_server_flow(repo):
         out += f'  | {k} => [' + '; '.join(steps) + ']\n'
     out += '  end.\n'
     return out
+
+
+@generator('ReaderLoop.v', 'rodbus/src/common/frame.rs', 'rodbus/src/common/buffer.rs')
+def gen_reader_loop(repo):
+    """FramedReader::next_frame (called anew whenever run_one's select! is re-entered, and by the SAME reader across
+    RTU port re-opens) and the compaction step of ReadBuffer::read_some, statement by statement."""
+    fsrc = rp.read(f'{repo}/rodbus/src/common/frame.rs')
+    nf = statements(rp.find_body(fsrc, r'pub\(crate\)\s+async\s+fn\s+next_frame\s*\('))
+    if len(nf) != 1 or not nf[0].startswith('loop {'):
+        raise ParseError(f'next_frame: the body is not a single loop (parser state must survive from call to call): {[x[:60] for x in nf]}')
+    inner = statements(block_of(nf[0][len('loop '):], 'next_frame loop'))
+    if len(inner) != 1 or not re.match(r'match self\.parser\.parse\(&mut self\.buffer, decode_level\.frame\) \{', inner[0]):
+        raise ParseError(f'next_frame: the loop body is not `match self.parser.parse(..)`: {[x[:80] for x in inner]}')
+    arms = dict(arms_of(inner[0], 'next_frame'))
+    if set(arms) != {'Ok(Some(frame))', 'Ok(None)', 'Err(err)'}:
+        raise ParseError(f'next_frame: arms {list(arms)}')
+    if arms['Ok(Some(frame))'] != 'return Ok(frame)':
+        raise ParseError('next_frame: a parsed frame is not returned as it is')
+    none = statements(block_of(arms['Ok(None)'], 'need more') if arms['Ok(None)'].startswith('{') else arms['Ok(None)'])
+    if none != ['self.buffer.read_some(io, decode_level.physical).await?']:
+        raise ParseError(f'next_frame: Ok(None) arm: {none}')
+    err = statements(block_of(arms['Err(err)'], 'error arm') if arms['Err(err)'].startswith('{') else arms['Err(err)'])
+    if err != ['self.parser.reset()', 'return Err(err)']:
+        raise ParseError(f'next_frame: the error arm is not `self.parser.reset(); return Err(err)`: {err}')
+    bsrc = rp.read(f'{repo}/rodbus/src/common/buffer.rs')
+    rs = statements(rp.find_body(bsrc, r'pub\(crate\)\s+async\s+fn\s+read_some\s*\('))
+    want_rs = [r'if self\.is_empty\(\) \{ self\.begin = 0 ?; self\.end = 0 ?; \}', None,
+               r'let count = io\.read\(&mut self\.buffer\[self\.end\.\.\], decode_level\)\.await\?',
+               r'if count == 0 \{ return Err\(std::io::Error::from\(std::io::ErrorKind::UnexpectedEof\)\) ?; \}', r'self\.end \+= count', r'Ok\(count\)']
+    if len(rs) != len(want_rs):
+        raise ParseError(f'read_some: {len(rs)} statements')
+    for s, w in zip(rs, want_rs):
+        if w is not None and not re.fullmatch(w, s):
+            raise ParseError('read_some: statement not understood: ' + s[:120])
+    if not rs[1].startswith('if self.end == self.buffer.len() {'):
+        raise ParseError('read_some: the compaction is not guarded by `self.end == self.buffer.len()`')
+    comp = statements(block_of(rs[1][rs[1].index('{'):], 'compaction'))
+    out = '(* common/frame.rs: FramedReader::next_frame = loop { match parser.parse(buffer) { frame => return it; need more => read_some?;\n   error => parser.reset(); return it } }: nothing is reset on ENTRY (a call dropped by select! is re-entered mid-frame), the\n   parser IS reset when a framing error is returned (the same reader serves the re-opened RTU port) *)\n'
+    out += 'Definition next_frame_resets_parser_on_entry : bool := false.\n'
+    out += 'Definition next_frame_resets_parser_on_error : bool := true.\n'
+    out += '(* common/buffer.rs: ReadBuffer::read_some, the compaction when end == capacity, statement by statement *)\n'
+    out += 'Definition read_some_compaction : list string := [' + '; '.join('"' + c.replace('"', '""') + '"' for c in comp) + ']%string.\n'
+    return out
